@@ -88,6 +88,18 @@ func runC17(c *Ctx) {
 		// DS digests
 		if i%8 == 0 {
 			k.Hdr.Name = randCase(r, presentLabels(genLabels(r, 0)))
+			if r.Chance(30) {
+				// owner names typed as raw UTF-8: only ASCII letters are case-folded (RFC 4034 section 6.2)
+				lab := []string{"\u00c9", "\u212a", "\u0414\u043e\u043c", "\u00dcn\u00ef", "A\u00c9b"}[r.Intn(5)]
+				if k.Hdr.Name == "." {
+					k.Hdr.Name = lab + "."
+				} else {
+					k.Hdr.Name = lab + "." + k.Hdr.Name
+				}
+				if len(k.Hdr.Name) > 200 {
+					k.Hdr.Name = lab + "."
+				}
+			}
 			owner := unescapeName(asciiLower(k.Hdr.Name))
 			for _, dt := range []uint8{1, 2, 4, 0, 3, 5, 255} {
 				ds := k.ToDS(dt)
